@@ -78,9 +78,9 @@ Whole(m, des) ==
        /\ txt' = txt \o Sep \o (IF des THEN "." \o Mem[m].nm \o " = " ELSE "") \o f[1]
        /\ laststr' = f[4]
        (* flags name the shapes used to attribute a mismatch: ovr a scalar is given twice; pas a positional initialiser follows *)
-       (* a string literal; sab a string literal follows an initialiser of e, g or f (members that end after the start of s)   *)
+       (* a string literal; sab a string literal for s together with an initialiser of e or g anywhere, or of f before it       *)
        /\ flags' = flags \cup (IF f[3] \/ (Mem[m].k = "sc" /\ m \in used) THEN {"ovr"} ELSE {})
-                         \cup (IF ~des /\ laststr THEN {"pas"} ELSE {}) \cup (IF f[4] /\ lastm \in {4, 5, 7} THEN {"sab"} ELSE {})
+                         \cup (IF ~des /\ laststr THEN {"pas"} ELSE {}) \cup (IF f[4] THEN {"str"} ELSE {}) \cup (IF f[4] /\ 7 \in used THEN {"sab"} ELSE {})
   /\ cur' = m + 1 /\ used' = used \cup {m} /\ n' = n + 1 /\ fin' = fin /\ lastm' = m
 (* .member.sub = v: allowed while the member has not been given as a whole; the next initialiser must be designated (cur' = 0) *)
 Sub ==
@@ -100,5 +100,5 @@ Next ==
      \/ n < MaxItems /\ Mine(0) /\ Sub
      \/ fin' = TRUE /\ UNCHANGED <<obj, txt, cur, used, n, lastm, laststr, flags>>
 (* an empty list {} is not C11: at least one initialiser *)
-EmitInv == (fin /\ n > 0) => EmitJ([init |-> "{" \o txt \o "}", vals |-> obj, n |-> n, fl |-> flags])
+EmitInv == (fin /\ n > 0) => EmitJ([init |-> "{" \o txt \o "}", vals |-> obj, n |-> n, fl |-> flags \cup (IF "str" \in flags /\ (4 \in used \/ 5 \in used) THEN {"sab"} ELSE {})])
 =============================================================================
